@@ -149,4 +149,58 @@ MUTANTS = [
         "description": "a failed runtime is reported on the log but the process exits with status 0",
         "edits": [("cobald/daemon/core/main.py", "    runtime.accept()\n", "    try:\n        runtime.accept()\n    except RuntimeError:\n        logger.error(\"daemon failed\")\n")],
     },
+    {
+        "name": "c08_linear_threshold_inclusive",
+        "properties": ["C08"],
+        "description": "LinearController decreases demand already when utilisation equals the threshold",
+        "edits": [("cobald/controller/linear.py", "if self.target.utilisation < self.low_utilisation:", "if self.target.utilisation <= self.low_utilisation:")],
+    },
+    {
+        "name": "c08_stepwise_range_shifted",
+        "properties": ["C08", "C09"],
+        "description": "Stepwise selects the rule of the range below when supply sits exactly on a threshold",
+        "edits": [("cobald/controller/stepwise.py", "            if low <= supply < high:", "            if low < supply <= high or (supply == 0 and low == 0):")],
+    },
+    {
+        "name": "c08_switch_threshold_strict",
+        "properties": ["C08"],
+        "description": "DemandSwitch only switches when demand is strictly above a threshold",
+        "edits": [("cobald/controller/switch.py", "            if demand <= self.target.demand:", "            if demand < self.target.demand:")],
+    },
+    {
+        "name": "c08_relsupply_idle_keeps_demand",
+        "properties": ["C08"],
+        "description": "RelativeSupplyController leaves demand untouched when neither condition holds",
+        "edits": [("cobald/controller/relative_supply.py", "        else:\n            self.target.demand = self.target.supply\n", "")],
+    },
+    {
+        "name": "c09_linear_sleeps_two_intervals",
+        "properties": ["C09"],
+        "description": "LinearController.run sleeps two intervals between steps",
+        "edits": [("cobald/controller/linear.py", "            await trio.sleep(self.interval)", "            await trio.sleep(self.interval * 2)")],
+    },
+    {
+        "name": "c09_buffer_half_window",
+        "properties": ["C09"],
+        "description": "Buffer flushes every half window",
+        "edits": [("cobald/decorator/buffer.py", "            await trio.sleep(self.window)", "            await trio.sleep(self.window / 2)")],
+    },
+    {
+        "name": "c09_buffer_skips_equal_check_stale",
+        "properties": ["C09"],
+        "description": "Buffer only flushes when the pending demand is larger than the target's",
+        "edits": [("cobald/decorator/buffer.py", "            if self.demand != self.target.demand:", "            if self.demand > self.target.demand:")],
+    },
+    {
+        "name": "c09_switch_run_uses_default_interval",
+        "properties": ["C09"],
+        "description": "DemandSwitch.run sleeps 1 second regardless of its interval",
+        "edits": [("cobald/controller/switch.py", "            await trio.sleep(self.interval)", "            await trio.sleep(1)")],
+    },
+    {
+        "name": "c09_factory_loop_ends",
+        "properties": ["C09", "C15"],
+        "description": "FactoryPool.run adjusts once and then only sleeps",
+        "edits": [("cobald/composite/factory.py", "            if supply > demand:\n                self._shrink(target=demand)\n            else:\n                self._grow(target=demand)", "            if supply > demand:\n                self._shrink(target=demand)\n            else:\n                self._grow(target=demand)\n            await trio.sleep(float(\"inf\"))")],
+    },
 ]
